@@ -41,9 +41,26 @@ def pathological(maxlen):
     return out
 
 
+ALLOWED = set(b"ABCDEFGHIJKLMNOPQRSTUVWXYZabcdefghijklmnopqrstuvwxyz0123456789_#:.,()[]<>=+- \t\n\r")
+
+
+def alien_bytes():
+    """every byte no token contains, placed inside otherwise valid sentences (between tokens, inside a name, at the ends)"""
+    out = []
+    for b in range(256):
+        if b in ALLOWED:
+            continue
+        c = bytes([b])
+        for kind, parts in (("cond", [b"a" + c + b"= :v", b"a = :v" + c, c + b"a = :v", b"a = :v" + c + b"AND attribute_exists(b)"]),
+                            ("upd", [b"SET" + c + b"a = :v", b"SET a" + c + b"= :v", b"SET a = :v" + c])):
+            for p in parts:
+                out.append(case(kind, p, True))
+    return out
+
+
 def generate(n, seed, maxlen=4096):
     rnd = random.Random(seed)
-    out = pathological(maxlen)
+    out = pathological(maxlen) + alien_bytes()
     while len(out) < n:
         r = rnd.random()
         kind = "cond" if rnd.random() < 0.6 else "upd"
@@ -61,7 +78,7 @@ def generate(n, seed, maxlen=4096):
             text = sep.join(ts)
             strict = sep != "" and not any(t in ("1", "12a", "##", "::", "#", ":", "[", "]") for t in ts)
             out.append(case(kind, text, strict))
-    return out[:max(n, len(pathological(maxlen)))]
+    return out[:max(n, len(pathological(maxlen)) + len(alien_bytes()))]
 
 
 def write(path, n, seed, maxlen=4096):
